@@ -159,6 +159,51 @@ Definition nd_step (st : dict) (o : op) (obs : outcome) : outcome * list event :
       match walk fl st kp with Err e => (OErr e, []) | Ok d => (ONat (List.length d), []) end
   | Keys fl kp =>
       match walk fl st kp with Err e => (OErr e, []) | Ok d => (OKeys (keys d), []) end
+  | View fl kp =>
+      match walk fl st kp with Err e => (OErr e, []) | Ok d => (OVal (Node d), []) end
+  | EqD fl kp same =>
+      match walk fl st kp with Err e => (OErr e, []) | Ok _ => (OBool same, []) end
+  | GetM fl kp k dflt =>
+      match walk fl st kp with
+      | Err e => (OErr e, [])
+      | Ok d => match get k d with
+                | Some t => (OVal t, [])
+                | None => (OVal (match dflt with Some dv => dv | None => Leaf VNone end), [])
+                end
+      end
+  | UpdateBoth fl kp kvs kw =>
+      (* dict.update(mapping, **kw): the mapping, then the keyword arguments *)
+      match walk fl st kp with
+      | Err e => (OErr e, [])
+      | Ok _ => (ONone, map (fun kv => JSet (kp ++ [fst kv]) (snd kv)) (kvs ++ kw))
+      end
+  | UpdateProxy fl kp src =>
+      (* dict.update(other_section): every item of the other section *)
+      match walk fl st kp with
+      | Err e => (OErr e, [])
+      | Ok _ => match walk fl st src with
+                | Err e => (OErr e, [])
+                | Ok sd => (ONone, map (fun kv => JSet (kp ++ [fst kv]) (snd kv)) sd)
+                end
+      end
+  | RawSet fl kp sec k v =>
+      (* r = d[...].get(sec); r[k] = v : the sub-dict IS the dict's *)
+      match walk fl st kp with
+      | Err e => (OErr e, [])
+      | Ok d => match get sec d with
+                | Some (Node _) => (ONone, [JSet (kp ++ [sec; k]) v])
+                | _ => (OErr EType, [])
+                end
+      end
+  | LeafAppend fl kp k s =>
+      match walk fl st kp with
+      | Err e => (OErr e, [])
+      | Ok d => match get k d with
+                | Some (Leaf (VList l)) => (ONone, [JSet (kp ++ [k]) (Leaf (VList (l ++ [s])))])
+                | Some _ => (OErr EAttr, [])
+                | None => (OErr (miss_of fl), [])
+                end
+      end
   | _ => (ONone, [])
   end.
 
@@ -218,6 +263,13 @@ Definition rebase_op (hp : path) (o : op) : option op :=
   | Contains fl kp k => Some (Contains fl (hp ++ kp) k)
   | Len fl kp => Some (Len fl (hp ++ kp))
   | Keys fl kp => Some (Keys fl (hp ++ kp))
+  | View fl kp => Some (View fl (hp ++ kp))
+  | EqD fl kp b => Some (EqD fl (hp ++ kp) b)
+  | GetM fl kp k d => Some (GetM fl (hp ++ kp) k d)
+  | UpdateBoth fl kp kvs kw => Some (UpdateBoth fl (hp ++ kp) kvs kw)
+  | UpdateProxy fl kp src => Some (UpdateProxy fl (hp ++ kp) src)
+  | RawSet fl kp sec k v => Some (RawSet fl (hp ++ kp) sec k v)
+  | LeafAppend fl kp k s => Some (LeafAppend fl (hp ++ kp) k s)
   | _ => None
   end.
 
